@@ -90,6 +90,20 @@ fn family_counts(r: &Report, sub: &str, c: &Ctx) {
 
 // ---------------------------------------------------------------------------------------------
 
+/// The value domain of a schema; for definitions with more than 40 fields in one container every 128th value is
+/// kept (plus the first 4): the domain varies one field at a time, which is what the small definitions are for.
+fn thin_values(s: &Schema, all: &[Schema]) -> Vec<GenVal> {
+    let vals = values(s, all);
+    let wide = match &s.kind {
+        Kind::Struct(st) => st.fields.len() > 40,
+        Kind::Enum(e) => e.variants.iter().any(|v| v.fields.len() > 40),
+    };
+    if !wide {
+        return vals;
+    }
+    vals.into_iter().enumerate().filter(|(i, _)| *i < 4 || i % 128 == 0).map(|(_, v)| v).collect()
+}
+
 pub fn c07(r: &Report) {
     let c = ctx();
     let sub = "derived-types";
@@ -101,7 +115,7 @@ pub fn c07(r: &Report) {
         |i| {
             let s = ss[i];
             let e = &c.entries[s.id];
-            let vals = values(s, &c.all);
+            let vals = thin_values(s, &c.all);
             let mut ok = 0u64;
             for v in &vals {
                 mcx::slot::case("derived-len", format!("T{}", s.id).as_bytes());
@@ -157,7 +171,7 @@ pub fn c08(r: &Report) {
         |i| {
             let s = ss[i];
             let e = &c.entries[s.id];
-            let vals = values(s, &c.all);
+            let vals = thin_values(s, &c.all);
             let mut ok = 0u64;
             for v in &vals {
                 mcx::slot::case("derived-encode", format!("T{}", s.id).as_bytes());
@@ -288,7 +302,7 @@ pub fn c09(r: &Report) {
         |i| {
             let s = ss[i];
             let e = &c.entries[s.id];
-            let vals = values(s, &c.all);
+            let vals = thin_values(s, &c.all);
             let mut evals = 0u64;
             let mut ok = 0u64;
             let mut nevals = 0u64;
